@@ -49,6 +49,8 @@ func FileHandler(path string) (AuthenticationHandler, error) {
 	defer fd.Close()
 	reader := csv.NewReader(fd)
 	reader.Comma = ':'
+	// lines may have two (default mount point) or three fields
+	reader.FieldsPerRecord = -1
 	records, err := reader.ReadAll()
 	if err != nil {
 		return nil, err
